@@ -38,6 +38,9 @@ DROPPERS = ["Iterator::filter", "Iterator::filter_map", "Iterator::take", "Itera
             "Iterator::find", "Iterator::find_map", "Iterator::min", "Iterator::max", "Iterator::next"]
 PRESERVING = ["ToOwned::to_owned", "Path::to_path_buf", "Clone::clone", "Into::into", "From::from", "AsRef::as_ref",
               "Deref::deref", "Borrow::borrow", "PathBuf::from", "Path::new"]
+PATH_REWRITERS = re.compile(r"\b(Path|PathBuf)::(with_extension|with_file_name|with_added_extension|parent|file_name|"
+                            r"file_stem|file_prefix|extension|join|strip_prefix|components|ancestors|iter|push|pop|"
+                            r"set_extension|set_file_name|add_extension)\b")
 PARSE_STR = re.compile(r"<impl str>::parse|FromStr(<[^>]*>)?>?::from_str")
 STREAM_ADDERS = ["Extend::extend", "TokenStream::extend", "TokenStream::append_all", "TokenStreamExt::append_all"]
 
@@ -601,8 +604,21 @@ def r5(rep, c, st):
             if dep and any(y.matches(PARSE_STR) for y in cs.values()):
                 ext.append(x)
                 st["fmt_lines"].update((y.file, y.line) for y in dep)
+                # between the element and the formatted text the path is not rewritten (parent / file_name / join ..)
+                rew = [y for y in cs.values() if y.matches(PATH_REWRITERS) and
+                       any(h.bb in back_slice(f, a)[0] for a in y.args)]
+                rep.ob("R32.5", "expand: the element's path is printed unmodified", not rew,
+                       f"{[y.callee for y in rew]} applied to the element before it is formatted", f.loc(x.bb))
         rep.floor("R32.5", "per-element appends to the returned token stream", len(ext), 1)
         E = {x.bb for x in ext}
+        # inside the loop nothing else is appended to the returned stream (e.g. an attribute that disables the item)
+        body = f.reachable(some_t, avoid=[h.bb]) if some_t is not None else set()
+        for x in f.calls(STREAM_ADDERS):
+            if x.bb in body and x.bb not in E and len(x.args) >= 1:
+                k, l, proj = root(f, x.args[0])
+                if (k, l) in ret_roots:
+                    rep.ob("R32.5", "expand: inside the loop only the include_bytes! item is appended to the returned stream",
+                           False, "extra tokens are appended next to the item (they can change how it is compiled)", f.loc(x.bb))
         rep.ob("R32.5", "expand: each element of self.files appends a stream parsed from a string formatted with it",
                bool(E) and some_t is not None and f.all_paths_pass(some_t, O | H, E),
                "an element of self.files can be skipped", f.loc(b))
